@@ -67,4 +67,117 @@ theorem finish_dets_sub (p : SP α) (env : Env α) (groups : Tab (GroupT α)) (s
   · exact ⟨fun _ h => h, fun _ h => h, fun _ h => h⟩
 end
 
+section
+variable {α : Type} [Add α] [Sub α] [Mul α] [Div α] [Neg α] [NatCast α] [LT α] [LE α]
+  [DecidableLT α] [DecidableLE α] [Max α] [Min α] [BEq α] [Inhabited α] [Trig α]
+
+/-- the iterative scheme writes side-chain and Coulomb determinants only -/
+theorem iter_no_backbone (p : SP α) (groups : Tab (GroupT α)) (st : Nat → Stage α) (inters : List (Iter.Inter α)) (g : Nat) :
+    emsOf (iterEms p groups st inters) g .backbone = [] := by
+  unfold emsOf iterEms
+  rw [List.map_eq_nil_iff, List.filter_eq_nil_iff]
+  intro e he
+  obtain ⟨d, _, rfl⟩ := List.mem_map.mp he
+  cases hk : d.kind <;> simp [iterKind, hk]
+
+/-- the determinants written by the non-iterative pair rules / by the iterative scheme in a run of `score` -/
+def emsFinal (p : SP α) (env : Env α) (atoms : Tab AtomT) (groups : Tab (GroupT α)) : List (Em α) :=
+  nonIterEms (pairResults p env atoms groups (nvF (desTab p env atoms groups)))
+def itsFinal (p : SP α) (env : Env α) (atoms : Tab AtomT) (groups : Tab (GroupT α)) : List (Em α) :=
+  iterEms p groups (tab (stage1Tab p env atoms groups (desTab p env atoms groups)
+      (pairResults p env atoms groups (nvF (desTab p env atoms groups)))) Stage.dflt)
+    (iterInters (pairResults p env atoms groups (nvF (desTab p env atoms groups))))
+
+/-- the final record of an in-range group, field by field, in terms of the per-phase definitions -/
+theorem record_unfold (p : SP α) (env : Env α) (atoms : Tab AtomT) (groups : Tab (GroupT α)) (g : Nat) (hg : g < groups.n) :
+    ∃ o : GOut α,
+      (score p env atoms groups)[g]? = some o ∧
+      o.buried = buriedOf p groups (nvF (desTab p env atoms groups)) g ∧
+      o.evol = evolOf p groups (volF (desTab p env atoms groups)) (nvF (desTab p env atoms groups)) g ∧
+      o.eloc = elocOf p env groups (nvF (desTab p env atoms groups)) g ∧
+      (∀ d ∈ o.bb, d ∈ bbDets p env atoms groups g) ∧
+      (∀ d ∈ o.cb, d ∈ ionDets p env groups (nvF (desTab p env atoms groups)) g ∨ d ∈ emsOf (emsFinal p env atoms groups) g .coulomb
+        ∨ d ∈ emsOf (itsFinal p env atoms groups) g .coulomb) ∧
+      (∀ d ∈ o.sc, d ∈ emsOf (emsFinal p env atoms groups) g .sidechain ∨ d ∈ emsOf (itsFinal p env atoms groups) g .sidechain) := by
+  refine ⟨_, score_get p env atoms groups g hg, ?_, ?_, ?_, ?_, ?_, ?_⟩
+  · rw [(finish_fields p env groups _ _ g).2.1, stages_get p env atoms groups g hg]; rfl
+  · rw [(finish_fields p env groups _ _ g).2.2.1, stages_get p env atoms groups g hg]; rfl
+  · rw [(finish_fields p env groups _ _ g).2.2.2, stages_get p env atoms groups g hg]; rfl
+  · intro d hd
+    have h := (finish_dets_sub p env groups _ _ g).2.1 d hd
+    rw [stages_get p env atoms groups g hg] at h
+    simp only [stage2, stage1, iter_no_backbone, List.append_nil] at h
+    exact h
+  · intro d hd
+    have h := (finish_dets_sub p env groups _ _ g).2.2 d hd
+    rw [stages_get p env atoms groups g hg] at h
+    simp only [stage2, stage1, List.mem_append] at h
+    rcases h with (h | h) | h
+    · exact Or.inl h
+    · exact Or.inr (Or.inl h)
+    · exact Or.inr (Or.inr h)
+  · intro d hd
+    have h := (finish_dets_sub p env groups _ _ g).1 d hd
+    rw [stages_get p env atoms groups g hg] at h
+    simp only [stage2, stage1, List.mem_append] at h
+    exact h
+end
+
+theorem mem_emsOf {α : Type} (ems : List (Em α)) (g : Nat) (k : Kind) (d : Det α) (h : d ∈ emsOf ems g k) :
+    (⟨g, d.partner, k, d.value⟩ : Em α) ∈ ems := by
+  unfold emsOf at h
+  obtain ⟨e, he, rfl⟩ := List.mem_map.mp h
+  obtain ⟨hm, hc⟩ := List.mem_filter.mp he
+  simp only [Bool.and_eq_true, beq_iff_eq] at hc
+  obtain ⟨ho, hk⟩ := hc
+  cases e; simp_all
+
+
+theorem mem_tagOut_kind {α : Type} (a b : Nat) (k : Kind) (o : Out α) (e : Em α) (h : e ∈ tagOut a b k o) : e.kind = k := by
+  unfold tagOut at h
+  obtain ⟨r, _, rfl⟩ := List.mem_map.mp h
+  split <;> rfl
+
+
 end Propka.Scoring
+
+namespace Propka.Iter
+set_option linter.unusedSectionVars false
+section
+variable {α : Type} [Add α] [Sub α] [Mul α] [Neg α] [NatCast α] [LT α] [DecidableLT α] [BEq α] [Inhabited α]
+
+/-- every determinant of an iteration is an output of `interStep` for one of the interactions -/
+theorem iterate_dets (minV : α) (gs : Array (IGroup α)) (inters : List (Inter α)) (s : State α) (d : Det α)
+    (h : d ∈ (iterate minV gs inters s).dets) : ∃ it ∈ inters, ∃ ann, d ∈ (interStep minV gs s.old it ann).1 := by
+  unfold iterate at h
+  simp only at h
+  obtain ⟨r, hr, hd⟩ := List.mem_flatMap.mp h
+  obtain ⟨pr, hp, rfl⟩ := List.mem_map.mp hr
+  exact ⟨pr.1, (List.of_mem_zip hp).1, pr.2, hd⟩
+
+theorem solveLoop_dets (minV : α) (gs : Array (IGroup α)) (inters : List (Inter α)) (fuel : Nat) (s : State α) (d : Det α)
+    (h : d ∈ (solveLoop minV gs inters fuel s).dets) :
+    d ∈ s.dets ∨ ∃ it ∈ inters, ∃ old ann, d ∈ (interStep minV gs old it ann).1 := by
+  induction fuel generalizing s with
+  | zero => exact Or.inl h
+  | succ n ih =>
+    unfold solveLoop at h
+    simp only at h
+    split at h
+    · obtain ⟨it, hit, ann, hd⟩ := iterate_dets minV gs inters s d h
+      exact Or.inr ⟨it, hit, s.old, ann, hd⟩
+    · rcases ih _ h with h1 | h2
+      · obtain ⟨it, hit, ann, hd⟩ := iterate_dets minV gs inters s d h1
+        exact Or.inr ⟨it, hit, s.old, ann, hd⟩
+      · exact Or.inr h2
+
+/-- **Every determinant the iterative scheme finally writes is an output of one of the three iterative pair rules
+    (`interStep`), applied to one of the listed interactions** in some iteration. -/
+theorem solve_dets (minV : α) (gs : Array (IGroup α)) (inters : List (Inter α)) (d : Det α) (h : d ∈ solve minV gs inters) :
+    ∃ it ∈ inters, ∃ old ann, d ∈ (interStep minV gs old it ann).1 := by
+  unfold solve at h
+  rcases solveLoop_dets minV gs inters 10 _ d (List.mem_filter.mp h).1 with h1 | h2
+  · simp [initState] at h1
+  · exact h2
+end
+end Propka.Iter
